@@ -59,13 +59,19 @@ def tag_first_word(s):
     return m.group(1) + "<b>" + m.group(2) + "</b>" + m.group(3)
 
 
-def make_style(name, al):
+def calls_of(case):
+    """the set_column_alignment(col, a) calls of a case, in order (older replay files carry the effective alignments)"""
+    if "calls" in case:
+        return [list(c) for c in case["calls"]]
+    return [[k, a] for k, a in enumerate(case.get("al", [])) if a != 0 or k % 2 == 0]
+
+
+def make_style(name, calls):
     from clikit.ui.style import TableStyle
 
     st = getattr(TableStyle, name)()
-    for k, a in enumerate(al):
-        if a != 0 or k % 2 == 0:  # leave some columns to the default alignment
-            st.set_column_alignment(k, a)
+    for col, a in calls:
+        st.set_column_alignment(col, a)
     return st
 
 
@@ -89,7 +95,7 @@ def render_case(case):
         texts.append(trow)
     io = BufferedIO(formatter=AnsiFormatter(forced=True) if case.get("ansi") else None)
     io.set_terminal_dimensions(Rectangle(case["T"], 50))
-    table = Table(make_style(case["style"], case["al"]))
+    table = Table(make_style(case["style"], calls_of(case)))
     if case["hdr"]:
         table.set_header_row(texts[0])
         table.add_rows(texts[1:])
@@ -117,7 +123,7 @@ def render_case(case):
         "style": case["style"],
         "T": case["T"],
         "ind": case["ind"],
-        "al": case["al"],
+        "calls": calls_of(case),
         "tagged": sorted(tagged),
         "before": before,
         "after": after,
@@ -149,7 +155,7 @@ def run_object(case):
     table = Table(getattr(TableStyle, case["style"])())
     evs = []
     for op in case["ops"]:
-        ev = {"n": 0, "hdr": False, "rows": [], "style": case["style"], "T": 0, "ind": case["ind"], "al": [], "tagged": [],
+        ev = {"n": 0, "hdr": False, "rows": [], "style": case["style"], "T": 0, "ind": case["ind"], "calls": [], "tagged": [],
               "runA": False, "op": op["op"], "fromObj": True, "row": op.get("row", []), "rws": op.get("rws", []),
               "idx": op.get("idx", 0)}
         ev["before"] = table_state(table)
@@ -165,7 +171,6 @@ def run_object(case):
                 table.set_rows([[to_text(c) for c in r] for r in op["rws"]])
             else:
                 n = table._nb_columns or 1
-                ev["al"] = [0] * n
                 ev["T"] = 80 if op.get("w") == "wide" else case["ind"] + geometry(case["style"], n) + n + case.get("slack", 6)
                 ev["runA"] = True
                 io = BufferedIO(formatter=AnsiFormatter(forced=True) if case.get("ansi") else None)
@@ -208,7 +213,7 @@ def random_object_case(rng):
 
 def case_of(rec, ansi=False, tagged=(), runA=True):
     return {"n": rec["n"], "hdr": rec["hdr"], "rows": rec["rows"], "style": rec["style"], "T": rec["T"], "ind": rec["ind"],
-            "al": rec["al"], "ansi": ansi, "tagged": list(tagged), "runA": runA}
+            "calls": rec["calls"], "ansi": ansi, "tagged": list(tagged), "runA": runA}
 
 
 def geometry(style, n):
@@ -264,7 +269,15 @@ def random_case(rng, big):
             p = "short" if (hdr and r == 0 and rng.random() < 0.8) else (colprof[k] if rng.random() < 0.7 else rng.choice(profiles))
             row.append(random_cell(rng, r * n + k + 1, p))
         rows.append(row)
-    al = [rng.choice([0, 0, 1, 2]) for _ in range(n)]
+    # alignments are set through set_column_alignment in any order: ascending, descending, shuffled, a column twice
+    calls = [[k, rng.choice([0, 1, 2])] for k in range(n) if rng.random() < 0.7]
+    order = rng.random()
+    if order < 0.3:
+        calls.reverse()
+    elif order < 0.6:
+        rng.shuffle(calls)
+    if calls and rng.random() < 0.3:
+        calls.insert(rng.randrange(len(calls) + 1), [rng.randrange(n), rng.choice([0, 1, 2])])
     tagged = []
     dup = rng.random() < 0.3
     if dup:  # values repeated in other rows / columns (identical text, hence the same class of characters)
@@ -278,7 +291,7 @@ def random_case(rng, big):
             tagged = sorted(set(rng.choice(cand) for _ in range(rng.randint(1, 3))))
     total = sum(len(c) for row in rows for c in row)
     pre = T_ - ind - geometry(style, n) >= n
-    return {"n": n, "hdr": hdr, "rows": rows, "style": style, "T": T_, "ind": ind, "al": al, "ansi": rng.random() < 0.5,
+    return {"n": n, "hdr": hdr, "rows": rows, "style": style, "T": T_, "ind": ind, "calls": calls, "ansi": rng.random() < 0.5,
             "tagged": tagged, "runA": pre and not tagged and total <= 2500}
 
 
@@ -290,9 +303,10 @@ def wrapped(ev):
 
 FAMILIES = {
     "quick": [("fit", "MC_TableLayout_quick_fit.cfg"), ("draw", "MC_TableLayout_quick_draw.cfg"),
-              ("dup", "MC_TableLayout_quick_dup.cfg")],
+              ("dup", "MC_TableLayout_quick_dup.cfg"), ("align", "MC_TableLayout_quick_align.cfg")],
     "thorough": [("fit", "MC_TableLayout_thorough_fit.cfg"), ("draw", "MC_TableLayout_thorough_draw.cfg"),
-                 ("three", "MC_TableLayout_thorough_three.cfg"), ("dup", "MC_TableLayout_thorough_dup.cfg")],
+                 ("three", "MC_TableLayout_thorough_three.cfg"), ("dup", "MC_TableLayout_thorough_dup.cfg"),
+                 ("align", "MC_TableLayout_thorough_align.cfg")],
 }
 
 
@@ -316,6 +330,9 @@ def run(ctx):
         "style tags: only <b>..</b> around the first word of a cell; a tagged cell that has to be wrapped is the known "
         "finding C14-tagged-cell-wrapped (tag-unaware textwrap)",
         "styles without right-hand rule (borderless, compact): lines may omit trailing blanks",
+        "column alignments are set through TableStyle.set_column_alignment(col, a) in any order (ascending, descending, a column "
+        "twice) with col < number of columns; an alignment for a column the table does not have is a caller error "
+        "(get_column_alignments raises IndexError) and is not generated",
         "round() on an exact .5 may go either way in the code (float arithmetic); the A-layer allows both",
     ]
     mism, samples = [], []
@@ -330,7 +347,7 @@ def run(ctx):
     def handle(rec, fam):
         counts["emitted"] += 1
         # variants are chosen by the content of the behaviour (TLC's workers print in no fixed order)
-        h = zlib.crc32(json.dumps([rec["rows"], rec["style"], rec["T"], rec["ind"], rec["al"]]).encode())
+        h = zlib.crc32(json.dumps([rec["rows"], rec["style"], rec["T"], rec["ind"], rec["calls"]]).encode())
         case = case_of(rec, ansi=(h % 2 == 0))
         if fam == "draw" and (h // 2) % (64 if quick else 256) == 0 and any(rec["rows"][0][0]):
             case["tagged"] = [1]
@@ -339,7 +356,7 @@ def run(ctx):
             case["style"] = "solid"
         nb = h // 1024
         if rec["ties"] > 0:
-            key = json.dumps([rec["n"], rec["hdr"], rec["rows"], rec["style"], rec["T"], rec["ind"], rec["al"]])
+            key = json.dumps([rec["n"], rec["hdr"], rec["rows"], rec["style"], rec["T"], rec["ind"], rec["calls"]])
             pending.setdefault(key, [case, []])[1].append(rec)
             return
         ev, same = compare(rec, case)
@@ -419,7 +436,7 @@ def run(ctx):
             ctx.nontrivial_n += 1
     ctx.extra["object_histories_replayed"] = nobj
     ctx.sample({"object_history": [{"op": o["op"], "idx": o.get("idx", 0), "w": o.get("w", "")} for o in cases[-1]["ops"]]})
-    ctx.sample({"random_table": {k: cases[0][k] for k in ("n", "hdr", "style", "T", "ind", "al")},
+    ctx.sample({"random_table": {k: cases[0][k] for k in ("n", "hdr", "style", "T", "ind", "calls")},
                 "lines": ["".join(" -|+=????#"[c] if c < 10 else "x" for c in ln) for ln in traces[0][0]["obs"]["lines"][:8]]})
     for part_t, part_c in zip(chunks(traces, 3000), chunks(cases, 3000)):
         ctx.validate(SPEC, "TableLayoutTrace", "TableLayoutTrace.cfg", part_t, cases=part_c, name="recorded-calls")
@@ -439,5 +456,5 @@ def replay(ctx, path):
     ctx.count()
     ctx.nontriv("replay")
     ctx.nontriv("replay2")
-    ctx.sample({k: case.get(k) for k in ("n", "hdr", "style", "T", "ind", "al", "tagged", "ansi")})
+    ctx.sample({k: case.get(k) for k in ("n", "hdr", "style", "T", "ind", "calls", "tagged", "ansi")})
     ctx.validate(SPEC, "TableLayoutTrace", "TableLayoutTrace.cfg", [[ev]], cases=[case], name="replay")
